@@ -87,6 +87,44 @@ def cond(c, a, b):
     return a if a == b else ("cond", c, a, b)
 
 
+def as_ratio(t):
+    """(numerator, denominator) of a term read as a rational function: sums, products and quotients are combined, every
+    other term is an indeterminate.  Two terms denote the same rational function iff num1*den2 == num2*den1 in the
+    polynomial normal form of mul/add."""
+    if t is None:
+        return None
+    k = t[0]
+    if k == "add":
+        n, d = I(0), I(1)
+        for x in t[1]:
+            r = as_ratio(x)
+            if r is None:
+                return None
+            n, d = add(mul(n, r[1]), mul(r[0], d)), mul(d, r[1])
+        return n, d
+    if k == "mul":
+        n, d = I(1), I(1)
+        for x in t[1]:
+            r = as_ratio(x)
+            if r is None:
+                return None
+            n, d = mul(n, r[0]), mul(d, r[1])
+        return n, d
+    if k == "div":
+        a, b = as_ratio(t[1]), as_ratio(t[2])
+        if a is None or b is None:
+            return None
+        return mul(a[0], b[1]), mul(a[1], b[0])
+    return t, I(1)
+
+
+def same_ratio(a, b):
+    ra, rb = as_ratio(a), as_ratio(b)
+    if ra is None or rb is None:
+        return False
+    return mul(ra[0], rb[1]) == mul(rb[0], ra[1])
+
+
 CMP = {">": "gt", ">=": "ge", "<": "lt", "<=": "le", "==": "eq", "!=": "ne"}
 
 
